@@ -75,8 +75,7 @@ Print Assumptions C07_strategy.
 (* The property on the model under the guard: (METHOD, path) pairs distinct, no operation skipped
    [F07f], the de-dup search stays within the model bound  ==>  no operation is lost, each is exactly once in the group of each of its tags, method
    names are unique per client, and APIClient's tag table equals the emitter's.
-   PARTIAL: the last step groups -> files/properties (distinct module names [F07d, F07e]) is tied to
-   the code by the correspondence run only. *)
+   The last step groups -> files/properties is C07_files_exact / C07_reachable below (guard F07e). *)
 Theorem C07_partial : forall method_name tag_key clean_id score st doc,
   doc_distinct doc ->
   guard_F07f method_name clean_id st doc = true ->
@@ -88,6 +87,37 @@ Theorem C07_partial : forall method_name tag_key clean_id score st doc,
   /\ client_tags tag_key score e = Some (emitter_tags tag_key score e).
 Proof. exact partial. Qed.
 Print Assumptions C07_partial.
+
+(* Groups -> files on disk -> APIClient properties (the step C07_partial leaves out).  For EVERY operation
+   list and all sanitiser functions, under the guard "the module names of the canonical tags are pairwise
+   distinct Python identifiers" (modules_ok; it follows from the check's guards F07e and F07d by
+   C07_guards_modules_ok): every group is written to its own endpoints file (nothing is overwritten),
+   client.py is importable, APIClient's tag properties are — up to sorting — exactly one (module, class)
+   per group with pairwise distinct names, and each group's property names the module whose file defines
+   exactly that group's methods.  FULL on the model. *)
+Theorem C07_files_exact : forall mn tk ta tc sc pid l, let e := emitted_ops mn l in
+  modules_ok tk ta sc pid e = true ->
+  files_of mn tk ta tc sc l = map (file_of mn tk ta tc sc e) (group tk e) /\ NoDup (map fst (files_of mn tk ta tc sc l)).
+Proof. exact files_exact. Qed.
+Print Assumptions C07_files_exact.
+
+Theorem C07_reachable : forall mn tk ta tc sc pid l, let e := emitted_ops mn l in
+  modules_ok tk ta sc pid e = true ->
+  exists t,
+    props_of mn tk ta tc sc pid l = Some t
+    /\ Permutation.Permutation t (map (prop_of ta tc) (emitter_tags tk sc e))
+    /\ NoDup (map fst t)
+    /\ forall k g, In (k, g) (group tk e) ->
+         let c := canonical_of (emitter_tags tk sc e) k in
+         In (ta c, class_of tc c) t
+         /\ alookup (ta c) (files_of mn tk ta tc sc l) = Some (class_of tc c, map (fun o => mn (o_id o)) g).
+Proof. exact reachable. Qed.
+Print Assumptions C07_reachable.
+
+Theorem C07_guards_modules_ok : forall tk ta tc sc pid l,
+  guard_F07e tk ta tc l = true -> guard_F07d ta pid l = true -> modules_ok tk ta sc pid l = true.
+Proof. exact guards_modules_ok. Qed.
+Print Assumptions C07_guards_modules_ok.
 
 Theorem C07_guard_nonvacuous :
   doc_distinct doc_ok
